@@ -563,7 +563,7 @@ theorem printed_cols_eq {t u t' u' : Tbl} {ls : List Line} (ht : render t = .ok 
     have e1 := R.lines_eq
     have e2 := R2.lines_eq
     rw [e1] at e2
-    simp only [List.append_assoc, List.singleton_append, List.cons_append] at e2
+    simp only [List.append_assoc, List.cons_append] at e2
     exact (List.cons.inj e2).1
   have hw : ws.map (·.2) = ws2.map (·.2) := by
     simp only [borderLine, Line.mk.injEq, true_and] at hb
@@ -571,5 +571,24 @@ theorem printed_cols_eq {t u t' u' : Tbl} {ls : List Line} (ht : render t = .ok 
   rw [R.state_eq, R2.state_eq]
   simp only [printed]
   rw [setWidths_eq_zip, setWidths_eq_zip, h1, h2, hc, ← hw, zip_reset]
+
+/-- without changes in between, `runEvents` is `startIters` -/
+theorem runEvents_starts (tables : List Tbl) (iters order : List Nat) (acc : List (Nat × List Line)) :
+    runEvents tables iters (order.map Ev.start) acc = startIters tables iters order acc := by
+  induction order generalizing tables acc with
+  | nil => rfl
+  | cons i rest ih =>
+    simp only [List.map_cons, runEvents, startIters]
+    cases iters[i]? with
+    | none => rfl
+    | some ti =>
+      simp only
+      cases tables[ti]? with
+      | none => rfl
+      | some t =>
+        simp only
+        cases render t with
+        | error e => rfl
+        | ok p => simp only [ih]
 
 end Table
